@@ -17,10 +17,11 @@ moves rows.
 * `_check_row_compatibility(ext1, ext2)`: equal label lists: nothing happens (repeated labels are then
   allowed); otherwise `ValueError` if either list repeats a label; otherwise BOTH sides are expanded
   onto the merged list (`_expand(ext1, l3, pv1)`, then `_expand(ext2, l3, pv2)`).
-* `_expand(old, labels, pv)`: for `ext, ext_x, mx, mn, mx_x, mn_x` (each only when it is not `None`; the
-  attribute itself must exist: an event made by `add_maxmin` has no `mx` and the look-up raises
-  `KeyError`): a new NaN array with `new[pv] = old`; `maxcase` / `mincase`: `'n/a'` lists with
-  `new[pv[i]] = old[i]`.
+* `_expand(old, labels, pv)`: for `ext, ext_x, mx, mn, mx_x, mn_x` (each only when it is there and not
+  `None`: `old.__dict__.get(name)` since fix 40cd789, finding F58 — an event made by `add_maxmin` has no
+  `mx, mn, mx_x, mn_x`, and the per-case members of an EVENT are never read by `form_extreme` anyway, so
+  the model does not carry them): a new NaN array with `new[pv] = old`; `maxcase` / `mincase`: `'n/a'`
+  lists with `new[pv[i]] = old[i]`.
 * `_calc_extreme`, one category: the first event that carries it sizes the new category
   (`init_extreme_cat`: `ext = ext_x = maxcase = mincase = None`, `mx, mn, mx_x, mn_x` NaN arrays
   `rows x len(cases)`, `drminfo` a copy: the event's labels); every later event goes through
@@ -30,14 +31,15 @@ moves rows.
   `mx_x[:, j] = mm.ext_x[:, 0]` or NaN when `mm.ext_x is None`, likewise `mn_x`; first call: copies;
   later calls: `j = nan_argmax(cur.ext[:, 0], mm.ext[:, 0]).nonzero()[0]`, and only `if j.size > 0`
   the labels, values and — `_put_time` — abscissae of the rows in `j` are overwritten.  `_put_time`
-  has three branches: both sides have `ext_x`: element writes; only `mm` has: `curext.ext_x =
-  copy.copy(mm.ext_x)` — the WHOLE array, all rows and both columns, also rows that are not in `j`
-  (observation (b) of the C16 brief; kept as the code has it, see `Props/C16Labels.lean`); only the
-  accumulator has: NaN into the rows in `j`.
+  (after fix 19ddbb5, finding F57): `mm` has `ext_x`: when the accumulator has none yet it gets a NEW
+  all-NaN array `np.full(curext.ext.shape, nan)`, then the rows in `j` take `mm`'s abscissae (only
+  those: a row that `mm` does not win keeps NaN); `mm` has none but the accumulator has: NaN into the
+  rows in `j`; neither has: nothing.
 
 A table is the list of its rows; a row bundles `ext[i, :]`, `ext_x[i, :]`, `maxcase[i]`, `mincase[i]`
 (`Cur`) and, for the accumulator, `mx[i, :]`, `mn[i, :]`, `mx_x[i, :]`, `mn_x[i, :]`.  `hasX` is
-`ext_x is not None`; the abscissae of a table without `ext_x` are never read.  Values are `Option α`
+`ext_x is not None`; the abscissae of a table without `ext_x` are never read (the harness sends NaN
+for them, which is what the theorems assume: `EvOk.nox`).  Values are `Option α`
 (`none` = NaN), abscissae `Option X`.
 -/
 namespace PyYetiVerif.ExtremaLabels
@@ -82,8 +84,6 @@ structure Cat (α X Lb : Type) where
   labels : List Lb
   /-- `ext_x is not None` -/
   hasX : Bool
-  /-- the namespace has `mx, mn, mx_x, mn_x` (recovery results and envelopes; `add_maxmin` events do not) -/
-  hasMx : Bool
   rows : List (Cur α (Option X) String)
 deriving Repr, DecidableEq
 
@@ -106,8 +106,6 @@ deriving Repr, DecidableEq
 inductive Err where
   /-- `ValueError`: row labels not all unique -/
   | value
-  /-- `KeyError: 'mx'` from `_expand` of an event without per-case columns -/
-  | key
 deriving Repr, DecidableEq
 
 /-- the row a table holds for label `l` (first occurrence) -/
@@ -146,8 +144,7 @@ def checkRows (nc : Nat) (a : Acc α X Lb) (c : Cat α X Lb) :
   else if !nodupB a.labels || !nodupB c.labels then .error .value
   else
     let m := mergeLists a.labels c.labels
-    if !c.hasMx then .error .key
-    else .ok (expandAcc nc a m.1 m.2.1, expandCat c m.1 m.2.2)
+    .ok (expandAcc nc a m.1 m.2.1, expandCat c m.1 m.2.2)
 
 end expand
 
@@ -160,14 +157,14 @@ variable {α X Lb : Type} [LT α] [DecidableLT α]
 def putTime (accX valX trig rep : Bool) (own new : Option X) : Option X :=
   if valX then
     if accX then (if rep then new else own)
-    else (if trig then new else own)
+    else (if trig then (if rep then new else none) else own)
   else if accX then (if rep then none else own)
   else own
 
-/-- the abscissa of the OTHER column after `_put_time` for this column: only the whole-array copy
-touches it -/
-def putTimeOther (accX valX trig : Bool) (own new : Option X) : Option X :=
-  if valX && !accX && trig then new else own
+/-- the abscissa of the OTHER column after `_put_time` for this column: only the creation of the
+all-NaN array touches it -/
+def putTimeOther (accX valX trig : Bool) (own : Option X) : Option X :=
+  if valX && !accX && trig then none else own
 
 /-- the event's row with the labels of `_mk_case_lbls` -/
 def relabel (case : String) (useExt : Bool) (d : Nat) (m : Cur α (Option X) String) :
@@ -186,13 +183,13 @@ def stepHi (accX valX trig : Bool) (a : ARow α X) (m : Cur α (Option X) String
   { a with cur :=
     ⟨⟨if rep then m.hi.v else a.cur.hi.v, putTime accX valX trig rep a.cur.hi.x m.hi.x,
        if rep then m.hi.lab else a.cur.hi.lab⟩,
-     ⟨a.cur.lo.v, putTimeOther accX valX trig a.cur.lo.x m.lo.x, a.cur.lo.lab⟩⟩ }
+     ⟨a.cur.lo.v, putTimeOther accX valX trig a.cur.lo.x, a.cur.lo.lab⟩⟩ }
 
 /-- the minimum column of a later call -/
 def stepLo (accX valX trig : Bool) (a : ARow α X) (m : Cur α (Option X) String) : ARow α X :=
   let rep := nanRepl ltB a.cur.lo.v m.lo.v
   { a with cur :=
-    ⟨⟨a.cur.hi.v, putTimeOther accX valX trig a.cur.hi.x m.hi.x, a.cur.hi.lab⟩,
+    ⟨⟨a.cur.hi.v, putTimeOther accX valX trig a.cur.hi.x, a.cur.hi.lab⟩,
      ⟨if rep then m.lo.v else a.cur.lo.v, putTime accX valX trig rep a.cur.lo.x m.lo.x,
        if rep then m.lo.lab else a.cur.lo.lab⟩⟩ }
 
@@ -201,10 +198,11 @@ relabelled -/
 def extremaTbl (j : Nat) (a : Acc α X Lb) (valX : Bool) (ms : List (Cur α (Option X) String)) :
     Acc α X Lb :=
   let rows0 := List.zipWith (recordRow valX j) a.rows ms
-  let trig0 := (rows0.zip ms).any fun p => nanRepl gtB p.1.cur.hi.v p.2.hi.v
+  -- `j.size > 0` for the two columns (the record part and the maximum column leave `ext[:, 1]` alone)
+  let trig0 := (a.rows.zip ms).any fun p => nanRepl gtB p.1.cur.hi.v p.2.hi.v
   let rows1 := List.zipWith (stepHi a.hasX valX trig0) rows0 ms
   let x1 := a.hasX || (valX && trig0)
-  let trig1 := (rows1.zip ms).any fun p => nanRepl ltB p.1.cur.lo.v p.2.lo.v
+  let trig1 := (a.rows.zip ms).any fun p => nanRepl ltB p.1.cur.lo.v p.2.lo.v
   let rows2 := List.zipWith (stepLo x1 valX trig1) rows1 ms
   { a with hasX := x1 || (valX && trig1), rows := rows2 }
 
@@ -246,10 +244,10 @@ def formCat (d nc : Nat) :
 
 end extrema
 
-/-- a lower-level envelope as the next level reads it (`dct[case]['extreme'][drm]`: it has the per-case
-columns, its `ext`, `ext_x`, `maxcase`, `mincase` are the rows' `cur`) -/
+/-- a lower-level envelope as the next level reads it (`dct[case]['extreme'][drm]`: its `ext`, `ext_x`,
+`maxcase`, `mincase` are the rows' `cur`) -/
 def accToCat {α X Lb : Type} (a : Acc α X Lb) : Cat α X Lb :=
-  ⟨a.labels, a.hasX, true, a.rows.map (·.cur)⟩
+  ⟨a.labels, a.hasX, a.rows.map (·.cur)⟩
 
 /-! ### the by-label reference: what the row of label `l` should hold -/
 section bylabel
